@@ -149,7 +149,7 @@ PROPS["C17"] = dict(
     steps=[
         dict(layer="native", monitor="c17", shards_quick=4, shards_thorough=8),
         dict(layer="small", monitor="c17", shards_quick=12, shards_thorough=16),
-        dict(layer="miri", monitor="c17", shards_quick=6, shards_thorough=6, package="zv", extra=None, tier="thorough"),
+        dict(layer="miri-small", monitor="c17", shards_quick=6, shards_thorough=6, package="zv", extra=None, tier="thorough"),
     ],
 )
 
